@@ -122,6 +122,8 @@ def main():
                     v.deviation("futex:%s" % kind, {"script": s, "schedule": r["prefix"], "stderr": r["stderr"][-1500:], "rc": r["rc"]},
                                 {"schedule.json": json.dumps({"script": s, "SCHED": r["prefix"], "env": env})})
                     continue
+                if r["end"].get("misuse"):
+                    v.deviation("futex:mutex-misuse", {"script": s, "schedule": r["prefix"], "count": r["end"]["misuse"]})
                 if r["end"]["outcome"] == "steplimit":
                     v.deviation("futex:livelock", {"script": s, "schedule": r["prefix"]})
                     continue
@@ -134,6 +136,58 @@ def main():
                     histories.append(h)
                     meta.append({"script": s, "schedule": [c for c, n in r["end"]["choices"]]})
         stats["histories"] = len(histories)
+        # 2b. real threads and real time: the runtime's own timed condition wait (deadline arithmetic) is only in play here.
+        #     Long finite time-outs behave like "until notified" (result 0, the notify counts 1, nobody hangs); short ones with
+        #     nobody notifying give 2 after about that long; histories also go to FutexAbs with the others.
+        real = os.path.join(wd, "fxreal")
+        rc, out, err = run(["gcc", "-O1", "-g", "-w", "-DWASM_THREADS_PTHREADS", "-I", os.path.join(REPO, "w2c2"), "-I", BINDC,
+                            os.path.join(BINDC, "futex_driver.c"), os.path.join(BINDC, "real_shim.c"),
+                            os.path.join(REPO, "futex", "futex.c"), os.path.join(REPO, "futex", "map.c"),
+                            os.path.join(REPO, "futex", "list.c"), "-o", real, "-lpthread"], timeout=300)
+        if rc != 0:
+            raise common.MachineryError("cannot build the real-thread futex driver: " + err[-2000:])
+        LONG = [2 ** 63 - 1, 2 ** 62, 10 ** 18, 8 * 10 ** 18, 9 * 10 ** 18, 10 ** 15]
+        real_scripts = [("W%d:64:0:%d|D:20;U:64:1:1" % (b, t), "long") for t in LONG for b in (32, 64)] + \
+                       [("W32:64:0:20000000", "short"), ("W64:64:0:30000000", "short"), ("W32:64:0:0", "zero"), ("W32:64:0:1", "zero"),
+                        ("W32:64:0:%d|W32:64:0:%d|D:20;U:64:5:2" % (2 ** 63 - 1, 10 ** 18), "long2")]
+
+        def run_real(sk):
+            s, kind = sk
+            rc_, so_, se_ = run([real, s], timeout=30)
+            evs = []
+            for l in so_.splitlines():
+                try:
+                    evs.append(json.loads(l))
+                except ValueError:
+                    pass
+            return s, kind, rc_, evs, se_
+        for s, kind, rc_, evs, se_ in common.pmap(run_real, real_scripts, jobs=4):
+            stats["schedules"] += 1
+            if rc_ != 0 or any(e["ev"] == "hang" for e in evs) or not any(e["ev"] == "end" for e in evs):
+                v.deviation("futex:real:hang" if rc_ in (4, -999) or any(e["ev"] == "hang" for e in evs) else "futex:real:crash",
+                            {"script": s, "rc": rc_, "events": evs[-6:], "stderr": se_[-600:]})
+                continue
+            waits = {}
+            for e in evs:
+                if e["ev"] == "call" and e["op"].startswith("wait"):
+                    waits[e["t"]] = e
+                elif e["ev"] == "ret" and e["op"].startswith("wait"):
+                    c0 = waits[e["t"]]
+                    dt = e["ms"] - c0["ms"]
+                    if kind in ("long", "long2") and e["res"] != 0:
+                        v.deviation("futex:real:long-timeout-result", {"script": s, "result": e["res"], "after_ms": dt})
+                    if kind == "short" and (e["res"] != 2 or dt < c0["c"] / 1e6 * 0.9 or dt > c0["c"] / 1e6 + 2000):
+                        v.deviation("futex:real:short-timeout", {"script": s, "result": e["res"], "after_ms": dt})
+                    if kind == "zero" and (e["res"] != 2 or dt > 1000):
+                        v.deviation("futex:real:zero-timeout", {"script": s, "result": e["res"], "after_ms": dt})
+            woken = sum(e["res"] for e in evs if e["ev"] == "ret" and e["op"] == "notify")
+            if kind in ("long", "long2") and woken != (1 if kind == "long" else 2):
+                v.deviation("futex:real:notify-count", {"script": s, "woken_in_total": woken})
+            h = history_of({"events": evs, "end": {"outcome": "complete"}})
+            if json.dumps(h) not in seen:
+                seen.add(json.dumps(h))
+                histories.append(h)
+                meta.append({"script": s, "schedule": "real threads"})
         rejected, tst = tracecheck.validate("FutexTrace", "FutexTrace.cfg", histories)
         for idx, at in rejected:
             h = histories[idx]
